@@ -267,6 +267,72 @@ fn main() {
             drivers::run_random(driver, seed, count, maxops, &mut out, scn_out);
             out.flush().unwrap();
         }
+        "twin" => {
+            // lock-step execution on a cw20 and a native deployment: the native call attaches exactly
+            // what the cw20 deployment pulled from the caller
+            let f = File::open(&args[2]).expect("scenario file");
+            let mut out = BufWriter::new(File::create(&args[3]).expect("trace file"));
+            let mut n = 0;
+            for line in BufReader::new(f).lines() {
+                let line = line.unwrap();
+                if line.trim().is_empty() {
+                    continue;
+                }
+                let scn: Value = serde_json::from_str(&line).expect("scenario json");
+                let id = scn["id"].as_str().map(|s| s.to_string()).unwrap_or(format!("s{}", n));
+                let mut dep_cw = scn.get("deploy").cloned().unwrap_or(json!({}));
+                let mut dep_nat = dep_cw.clone();
+                dep_cw["collateral"] = json!("cw20");
+                dep_nat["collateral"] = json!("native");
+                let mut cw = Runner::new(&id, &dep_cw);
+                let mut nat = Runner::new(&id, &dep_nat);
+                let mut i = 0;
+                writeln!(out, "{}", json!({"kind": "reset", "scn": id, "i": 0, "tx": cw.out[0]["tx"],
+                    "cw": cw.out[0], "nat": nat.out[0], "funds": 0})).unwrap();
+                cw.out.clear();
+                nat.out.clear();
+                if let Some(ops) = scn["ops"].as_array() {
+                    for op in ops {
+                        let k = op["k"].as_str().unwrap_or("tx");
+                        if k == "sweep" {
+                            continue;
+                        }
+                        let mut o_cw = op.clone();
+                        o_cw["funds"] = json!(0);
+                        o_cw["fault"] = json!(0);
+                        cw.op(&o_cw);
+                        let ev_cw = cw.out.pop().unwrap();
+                        cw.out.clear();
+                        // what the cw20 deployment pulled from the caller
+                        let sender = op["s"].as_str().unwrap_or("");
+                        let mut pulled: i64 = 0;
+                        if let Some(xs) = ev_cw["xfers"].as_array() {
+                            for x in xs {
+                                if x["ok"].as_bool().unwrap_or(false) && x["from"].as_str() == Some(sender)
+                                    && x["kind"].as_str() == Some("transfer_from") {
+                                    pulled += x["amt"].as_i64().unwrap_or(0);
+                                }
+                            }
+                        }
+                        if !ev_cw["res"]["ok"].as_bool().unwrap_or(false) {
+                            pulled = 0;
+                        }
+                        let mut o_nat = op.clone();
+                        o_nat["funds"] = json!(pulled);
+                        o_nat["fault"] = json!(0);
+                        nat.op(&o_nat);
+                        let ev_nat = nat.out.pop().unwrap();
+                        nat.out.clear();
+                        i += 1;
+                        writeln!(out, "{}", json!({"kind": ev_cw["kind"], "scn": id, "i": i, "tx": ev_cw["tx"],
+                            "cw": ev_cw, "nat": ev_nat, "funds": pulled})).unwrap();
+                    }
+                }
+                n += 1;
+            }
+            out.flush().unwrap();
+            println!("{{\"scenarios\": {}}}", n);
+        }
         "sint" => {
             let mut out = BufWriter::new(File::create(&args[2]).expect("out file"));
             sint::table(&mut out);
